@@ -2,13 +2,21 @@
    player was caught by a ghost, or no pellet is left.  From reset (counter 0): step number T is LAST (never later), a
    LAST before step T has another cause (death / board cleared).  The limit is the constructor argument:
    time_limit None (or 0) resolves to 1000, any other value is honoured as given (resolve_limit mirrors
-   self.time_limit = time_limit or 1000, read from the source by the translator). *)
-Require Import JV.Base.Prelude JV.Base.JaxIndex JV.Base.Codec JV.Base.TimeStep JV.Gen.PacManConsts JV.Model.PacMan JV.Proofs.PacMan JV.Proofs.PacMan_Inv JV.Proofs.PacMan_Rules.
+   self.time_limit = time_limit or 1000, read from the source by the translator).
+   Since the pellet counter is the number of pellets left on the map (invariant Book, C07/C08), "no pellet is left" can be
+   read off the map itself: C11_PacMan_last_iff_board. *)
+Require Import JV.Base.Prelude JV.Base.JaxIndex JV.Base.Codec JV.Base.TimeStep JV.Gen.PacManConsts JV.Model.PacMan JV.Proofs.PacMan JV.Proofs.PacMan_Inv JV.Proofs.PacMan_Rules JV.Proofs.PacMan_Book.
 Theorem C11_PacMan_last_iff xs ys T s a d :
   let s' := fst (step xs ys T s a d) in
   st (snd (step xs ys T s a d)) = LAST <-> (T <= sc s' \/ dead s' = true \/ pellets s' = 0).
 Proof. exact (last_iff xs ys T s a d). Qed.
 Print Assumptions C11_PacMan_last_iff.
+Theorem C11_PacMan_last_iff_board xs ys T s a d :
+  Book xs ys s ->
+  let s' := fst (step xs ys T s a d) in
+  st (snd (step xs ys T s a d)) = LAST <-> (T <= sc s' \/ dead s' = true \/ live (pellet_locs s') = []).
+Proof. exact (last_iff_board xs ys T s a d). Qed.
+Print Assumptions C11_PacMan_last_iff_board.
 Theorem C11_PacMan_episode xs ys T s0 acts a d :
   sc s0 = 0 ->
   let s := run xs ys T s0 acts in
